@@ -115,9 +115,29 @@ def run(ctx):
         refused.append(["declare", ["u", names[0]], ["i", 2], ["u", names[0]]])
     refused.append(["declare", ["u", "zqc07d"], ["i", 0], ["u", "joule"]])
     refused.append(["declare", ["u", "zqc07e"], ["i", 0], ["mul", ["u", "kilogram"], ["div", ["u", "meter"], ["pow", ["u", "second"], 2]]]])
-    specs, layouts = [], []
+    # the very first questions a process asks about its new units: is nothing of one the same as nothing of the other?
+    # (both magnitudes exactly zero - int, float, Decimal - before either unit was ever the start of a search)
+    def zero_first(bi):
+        out = []
+        zeros = [["i", 0], ["f", (0.0).hex()], ["d", "0"], ["f", (-0.0).hex()]]
+        shipped_base = {"length": "meter", "mass": "gram", "energy": "joule", "force": "newton", "time": "second"}
+        for d, names in by_dim.items():
+            others = [n for n in names[1:]] + [shipped_base[d]]
+            a = names[0]
+            for b_ in others:
+                z1, z2 = zeros[(bi + len(out)) % 4], zeros[(bi + 2 * len(out) + 1) % 4]
+                x, y = (["u", a], ["u", b_]) if (bi + len(out)) % 2 else (["u", b_], ["u", a])
+                kind = ["eq", "eq", "lt", "add", "convert"][(bi + len(out)) % 5]
+                op = ["convert", z1, x, y] if kind == "convert" else [kind, z1, x, z2, y]
+                out.append((op, kind, "all-disconnected", (d, "zero-first", b_ in shipped_base.values()), True))
+        return out
+
+    batches = []
     for bi, i in enumerate(range(0, len(cases), batch)):
-        chunk_ops = [c[0] for c in cases[i:i + batch]]
+        batches.append(zero_first(bi) + cases[i:i + batch])
+    specs, layouts = [], []
+    for bi, chunk_cases in enumerate(batches):
+        chunk_ops = [c[0] for c in chunk_cases]
         if bi % 2 == 0:
             prelude = defs + refused            # refused declarations first
         else:
@@ -131,7 +151,7 @@ def run(ctx):
     ctx.count("child_processes", 2 * len(specs))
     k = 0
     for bi, (ld, lo) in enumerate(zip(logs_default, logs_opt)):
-        chunk = cases[bi * batch:(bi + 1) * batch]
+        chunk = batches[bi]
         for log, mode in ((ld, "default"), (lo, "-O")):
             if "inconclusive" in log or log.get("fatal"):
                 ctx.not_reached(f"{mode} child: {log.get('inconclusive') or log.get('fatal')}")
@@ -153,6 +173,17 @@ def run(ctx):
             if len(ctx.samples) < 8 and nontrivial and k % 97 == 0:
                 ctx.sample({"op": op, "default": a, "-O": b})
             k += 1
+            if cls in ("all-disconnected", "partially-connected"):
+                # no chain of declarations links the two sides: conversions and sums must *fail* (with ConversionNotFound),
+                # == must say False and orderings must raise TypeError - for every magnitude, zero included
+                must = {"convert": ("raise", "ConversionNotFound"), "add": ("raise", "ConversionNotFound"), "sub": ("raise", "ConversionNotFound"),
+                        "eq": ("ok", "False"), "lt": ("raise", "TypeError"), "le": ("raise", "TypeError"), "gt": ("raise", "TypeError"),
+                        "ge": ("raise", "TypeError"), "sorted": ("raise", "TypeError")}[kind]
+                ctx.count("impossible_cases_with_a_required_outcome")
+                for mode, o in (("default", oa), ("-O", ob)):
+                    if o != must and not (o[0] == "raise" and o[1] not in ALLOWED[kind]):
+                        ctx.violation(f"C07:impossible-{kind}-answered:{mode}", f"{kind} between units that nothing connects gave {o} under {mode} mode, required {must}: "
+                                      f"{model.show(op[2]) if kind != 'sorted' else op}", {"op": op, "mode": mode, "default": a, "-O": b})
             for mode, o in (("default", oa), ("-O", ob)):
                 if o[0] == "raise" and o[1] not in ALLOWED[kind]:
                     ctx.violation(f"C07:escaped:{o[1]}:{mode}", f"{kind} raised {o[1]} under {mode} mode: {model.show(op[2]) if kind != 'sorted' else op}",
